@@ -4,6 +4,7 @@ package main
 // fed with the solver's assignment (DESIGN §6.3, §6.4).
 
 import (
+	"context"
 	"encoding/json"
 	"fmt"
 	"go/ast"
@@ -15,6 +16,7 @@ import (
 	"sort"
 	"strings"
 	"sync"
+	"time"
 )
 
 // discoverReader finds the package-level randomness source variable of the repository package.
@@ -189,6 +191,45 @@ func (r *Replayer) build() error {
 	return r.err
 }
 
+// runNative runs the replay binary on the given vector files with a wall-clock limit.
+func (r *Replayer) runNative(files []string, env []string, limit time.Duration) ([]byte, error) {
+	ctx, cancel := context.WithTimeout(context.Background(), limit)
+	defer cancel()
+	cmd := exec.CommandContext(ctx, r.bin, "-test.run", "TestVerifReplay", "-test.count=1", "-test.timeout=0")
+	cmd.Dir = repoDir()
+	cmd.Env = append(append(goEnv(), env...), "VERIF_VECTORS="+strings.Join(files, ":"), "VERIF_GOLDEN="+filepath.Join(verifDir(), "golden"))
+	cmd.WaitDelay = 2 * time.Second
+	return cmd.CombinedOutput()
+}
+
+// collect reads result files; vectors without a result are re-run alone with a short limit, and a
+// vector that still produces nothing is reported as a hang (or crash) of the native call.
+func (r *Replayer) collect(files []string, idx []int, out []*NativeResult, batchOut []byte) error {
+	for k, i := range idx {
+		rb, rerr := os.ReadFile(files[k] + ".out")
+		if rerr != nil {
+			b, _ := r.runNative([]string{files[k]}, nil, 20*time.Second)
+			rb, rerr = os.ReadFile(files[k] + ".out")
+			if rerr != nil {
+				msg := "hang: the native call did not return within 20s"
+				if strings.Contains(string(b), "panic:") || strings.Contains(string(b), "fatal error:") {
+					msg = "crash: " + firstLines(string(b), 6)
+				} else if strings.Contains(string(b), "cannot") || strings.Contains(string(b), "no such file") {
+					return fmt.Errorf("native replay run failed: %s\n%s", firstLines(string(b), 10), firstLines(string(batchOut), 10))
+				}
+				out[i] = &NativeResult{Panic: msg}
+				continue
+			}
+		}
+		var nr NativeResult
+		if jerr := json.Unmarshal(rb, &nr); jerr != nil {
+			return jerr
+		}
+		out[i] = &nr
+	}
+	return nil
+}
+
 // Run executes the vectors natively (one process) and returns results in order.
 func (r *Replayer) Run(vecs []*Vector) ([]*NativeResult, error) {
 	if err := r.build(); err != nil {
@@ -242,57 +283,18 @@ func (r *Replayer) Run(vecs []*Vector) ([]*NativeResult, error) {
 		}
 		out[i] = &nr
 	}
-	if len(plain) < len(vecs) {
+	for lo := 0; lo < len(plain); lo += 200 {
+		hi := lo + 200
+		if hi > len(plain) {
+			hi = len(plain)
+		}
 		var pf []string
-		for _, i := range plain {
+		for _, i := range plain[lo:hi] {
 			pf = append(pf, files[i])
 		}
-		for lo := 0; lo < len(pf); lo += 200 {
-			hi := lo + 200
-			if hi > len(pf) {
-				hi = len(pf)
-			}
-			cmd := exec.Command(r.bin, "-test.run", "TestVerifReplay", "-test.count=1")
-			cmd.Dir = repoDir()
-			cmd.Env = append(goEnv(), "VERIF_VECTORS="+strings.Join(pf[lo:hi], ":"), "VERIF_GOLDEN="+filepath.Join(verifDir(), "golden"))
-			b, err := cmd.CombinedOutput()
-			for _, i := range plain[lo:hi] {
-				rb, rerr := os.ReadFile(files[i] + ".out")
-				if rerr != nil {
-					return nil, fmt.Errorf("native replay run failed: %v\n%s", err, b)
-				}
-				var nr NativeResult
-				if jerr := json.Unmarshal(rb, &nr); jerr != nil {
-					return nil, jerr
-				}
-				out[i] = &nr
-			}
-		}
-		return out, nil
-	}
-	// chunk to keep the environment variable small
-	for lo := 0; lo < len(files); lo += 200 {
-		hi := lo + 200
-		if hi > len(files) {
-			hi = len(files)
-		}
-		cmd := exec.Command(r.bin, "-test.run", "TestVerifReplay", "-test.count=1")
-		cmd.Dir = repoDir()
-		cmd.Env = append(goEnv(), "VERIF_VECTORS="+strings.Join(files[lo:hi], ":"), "VERIF_GOLDEN="+filepath.Join(verifDir(), "golden"))
-		b, err := cmd.CombinedOutput()
-		for i := lo; i < hi; i++ {
-			rb, rerr := os.ReadFile(files[i] + ".out")
-			if rerr != nil {
-				if err != nil {
-					return nil, fmt.Errorf("native replay run failed: %v\n%s", err, b)
-				}
-				return nil, fmt.Errorf("native replay produced no result for %s\n%s", files[i], b)
-			}
-			var nr NativeResult
-			if jerr := json.Unmarshal(rb, &nr); jerr != nil {
-				return nil, jerr
-			}
-			out[i] = &nr
+		b, _ := r.runNative(pf, nil, 180*time.Second)
+		if err := r.collect(pf, plain[lo:hi], out, b); err != nil {
+			return nil, err
 		}
 	}
 	return out, nil
